@@ -55,9 +55,6 @@ from collections import deque
 BLOCKED = ("blocked",)
 STOP = ("stop",)
 
-READ_KINDS = ("read", "iter_chunked", "read_nowait")
-
-
 class Call:
     __slots__ = (
         "kind", "n", "sep", "acc", "need", "started", "released", "fail", "exc_after_release",
